@@ -238,3 +238,32 @@ class conjoin_rules:
         "pure": lambda rule1, rule2, nt_map: (same_graph_state(rule1.rhs) and same_graph_state(rule2.rhs)
                                               and nt_map == old(nt_map)),
     }
+
+
+# ---- conjoin_hrgs: control flow (C17) -------------------------------------------------------------------------------
+# The grammars are opaque here; the obligations are about which rule pairs are looked at and added:
+# every pair of a rule of hrg1 and a rule of hrg2 is tested with conjoinable, and exactly the pairs that pass are conjoined
+# and added (no pair is skipped for another reason); a node-label conflict or a conflict between two terminal labels is
+# the only source of ValueError before the pairing starts.
+@contract("fggs.conjunction.conjoin_hrgs")
+class conjoin_hrgs:
+    sig = {"hrg1": "opaque", "hrg2": "opaque"}
+    properties = ["C17"]
+    opaque_calls = ["check_namespace_collisions", "nonterminal_pairs", "HRG", "all_rules", "conjoinable", "conjoin_rules", "add_rule"]
+    opaque_results = {"conjoinable": "bool"}
+    may_raise = ["ValueError"]
+    loops = {
+        0: lambda: count("conjoinable") == 0 and count("add_rule") == 0 and iterations(3) == 0,
+        1: lambda: count("conjoinable") == 0 and count("add_rule") == 0 and iterations(3) == 0,
+        2: lambda: (count("conjoin_rules") == count_true("conjoinable") and count("add_rule") == count_true("conjoinable")
+                    and count("conjoinable") == iterations(3)),
+        3: lambda: (count("conjoin_rules") == count_true("conjoinable") and count("add_rule") == count_true("conjoinable")
+                    and count("conjoinable") == iterations(3)),
+    }
+    ensures = {
+        # every pair (rule of hrg1, rule of hrg2) that the two loops enumerate is tested with conjoinable ...
+        "every_pair_is_tested": lambda: count("conjoinable") == iterations(3),
+        # ... and exactly the pairs that pass are conjoined and added
+        "exactly_the_conjoinable_pairs": lambda: (
+            count("conjoin_rules") == count_true("conjoinable") and count("add_rule") == count_true("conjoinable")),
+    }
